@@ -23,6 +23,10 @@ type Cluster struct {
 	Nodes []*fakeredis.Server
 	Addrs []string
 	owner [16384]int // slot -> node index
+	// slots being migrated: the owner answers -ASK <slot> <target>, the target accepts the slot's keys
+	// from a connection that has just sent ASKING (the flag covers the next command or the next MULTI…EXEC)
+	migrating map[int]int
+	asking    map[*fakeredis.Conn]bool
 	// Extra lets a test chain its own fault hook (evaluated after routing).
 	Extra func(node int, c *fakeredis.Conn, cseq int, argv []string) fakeredis.Action
 }
@@ -60,7 +64,7 @@ func Slot(key string) int { return int(rueidis.VerifCscSlot(key)) }
 
 // NewCluster builds n nodes with the 16384 slots dealt out by assign(slot) (nil: contiguous ranges).
 func NewCluster(n int, assign func(slot int) int) *Cluster {
-	cl := &Cluster{}
+	cl := &Cluster{migrating: map[int]int{}, asking: map[*fakeredis.Conn]bool{}}
 	for i := 0; i < n; i++ {
 		s := fakeredis.New()
 		s.Addr = fmt.Sprintf("127.0.0.1:%d", 7001+i)
@@ -82,16 +86,40 @@ func NewCluster(n int, assign func(slot int) int) *Cluster {
 		})
 		s.Handle("ASKING", func(c *fakeredis.Conn, argv []string) fakeredis.V { return fakeredis.OK() })
 		s.Fault = func(c *fakeredis.Conn, cseq int, argv []string) fakeredis.Action {
+			name := strings.ToUpper(argv[0])
+			cl.mu.Lock()
+			asked := cl.asking[c]
+			switch name {
+			case "ASKING":
+				cl.asking[c] = true
+			case "MULTI":
+			case "EXEC", "DISCARD":
+				delete(cl.asking, c)
+			default:
+				if !c.CscInMulti() {
+					delete(cl.asking, c)
+				}
+			}
+			cl.mu.Unlock()
 			for _, k := range keysOf(argv) {
 				sl := Slot(k)
 				cl.mu.Lock()
 				o := cl.owner[sl]
+				tgt, mig := cl.migrating[sl]
 				cl.mu.Unlock()
-				if o != i {
-					c.CscPoison()
-					e := fakeredis.Error(fmt.Sprintf("MOVED %d %s", sl, cl.Addrs[o]))
-					return fakeredis.Action{Override: &e}
+				var e fakeredis.V
+				switch {
+				case o == i && mig:
+					e = fakeredis.Error(fmt.Sprintf("ASK %d %s", sl, cl.Addrs[tgt]))
+				case o == i:
+					continue
+				case mig && tgt == i && asked:
+					continue
+				default:
+					e = fakeredis.Error(fmt.Sprintf("MOVED %d %s", sl, cl.Addrs[o]))
 				}
+				c.CscPoison()
+				return fakeredis.Action{Override: &e}
 			}
 			if cl.Extra != nil {
 				return cl.Extra(i, c, cseq, argv)
@@ -107,6 +135,13 @@ func (cl *Cluster) Owner(key string) int {
 	cl.mu.Lock()
 	defer cl.mu.Unlock()
 	return cl.owner[Slot(key)]
+}
+
+// Migrate puts the slot of key into the migrating state towards node target.
+func (cl *Cluster) Migrate(key string, target int) {
+	cl.mu.Lock()
+	cl.migrating[Slot(key)] = target
+	cl.mu.Unlock()
 }
 
 // Move reassigns the slot of key to node (data is copied by the caller if wanted).
